@@ -23,3 +23,95 @@ func (t *RichText) drawSoftwrap(ctx vxfw.DrawContext) (vxfw.Surface, error)
   loop * invariant surf: s.Size.Width <= ctx.Max.Width && s.Size.Height <= ctx.Max.Height
                       && len(s.Buffer) == int(s.Size.Width) * int(s.Size.Height)
 @*/
+
+/*@
+-- ------------------------------------------------------------------ soft and hard wrapping of cells (C16)
+-- uniseg and unicode are outside the module: what they compute is named, not defined (ASSUMED fixed functions)
+ufun hasBreak(s string) bool
+ufun flsSeg(s string, st int) string
+ufun flsRest(s string, st int) string
+ufun flsBreak(s string, st int) bool
+ufun flsState(s string, st int) int
+ufun lastRune(s string) rune
+ufun lastRuneSize(s string) int
+ufun isSpaceR(r rune) bool
+extern attr github.com/rivo/uniseg.HasTrailingLineBreakInString = hasBreak
+extern attr github.com/rivo/uniseg.FirstLineSegmentInString = flsSeg, flsRest, flsBreak, flsState
+extern attr unicode/utf8.DecodeLastRuneInString = lastRune, lastRuneSize
+extern attr unicode.IsSpace = isSpaceR
+
+-- a cell the wrapper may drop: white space, or a mandatory line break
+pred Droppable(c vaxis.Cell) = isSpaceR(lastRune(c.Grapheme)) || hasBreak(c.Grapheme)
+
+-- firstLineSegment: a non-empty prefix of the cells; only its last cell can be a mandatory break, and a segment
+-- reported as ending in a break either is the whole input or ends in such a cell
+func firstLineSegment(cells []vaxis.Cell) ([]vaxis.Cell, bool)
+  modifies nothing
+  ensures C16_len:    len(cells) == 0 ? (len(result0) == 0 && !result1) : (1 <= len(result0) && len(result0) <= len(cells))
+  ensures C16_prefix: backing(result0) == backing(cells) && offset(result0) == offset(cells)
+  ensures C16_whole:  (len(cells) > 0 && len(result0) == len(cells)) ==> result1
+  ensures C16_break:  forall k in 0..len(result0) - 1: !hasBreak(cells[k].Grapheme)
+  ensures C16_ends:   (result1 && len(result0) < len(cells)) ==> hasBreak(cells[len(result0) - 1].Grapheme)
+  ensures C16_soft:   !result1 ==> (forall k in 0..len(result0): !hasBreak(cells[k].Grapheme))
+  loop 1 invariant scan: -1 <= rangeindex && (rangeindex + 1 < len(cells) || len(cells) == 0)
+                      && (rangeindex >= 0 ==> !hasBreak(cells[0].Grapheme))
+                      && (forall k in 1..rangeindex + 2: k < len(cells) ==> !hasBreak(cells[k].Grapheme))
+
+-- HardwrapScanner: a line is the cells up to the next "\n" (which is consumed); a final "\n" ends the text
+func (h *HardwrapScanner) Scan() bool
+  ensures C16_done:  old(len(h.cells)) == 0 ==> (!result && len(h.cells) == 0)
+  ensures C16_more:  old(len(h.cells)) > 0 ==> result
+  ensures C16_line:  result ==> (len(h.line) <= old(len(h.cells)) && (forall k in 0..len(h.line): h.line[k] == old(h.cells[k]) && h.line[k].Grapheme != "\n"))
+  ensures C16_cut:   result ==> (forall n in len(h.line)..len(h.line) + 1: n < old(len(h.cells)) ==> old(h.cells[n]).Grapheme == "\n")
+  ensures C16_rest:  result ==> (len(h.cells) == max(old(len(h.cells)) - len(h.line) - 1, 0)
+                                 && (forall n in len(h.line)..len(h.line) + 1: forall k in 0..len(h.cells): h.cells[k] == old(h.cells[n + 1 + k])))
+  loop 1 invariant scan: -1 <= rangeindex && rangeindex < old(len(h.cells)) && len(h.line) == rangeindex + 1
+                      && backing(h.line) != backing(h.cells)
+                      && len(h.cells) == old(len(h.cells)) && (forall k in 0..len(h.cells): h.cells[k] == old(h.cells[k]))
+                      && (forall k in 0..len(h.line): h.line[k] == old(h.cells[k]) && h.line[k].Grapheme != "\n")
+
+-- SoftwrapScanner.Scan: the line is a prefix of the remaining cells, what remains afterwards is a suffix of them, and
+-- every cell in between (neither emitted nor kept) is white space or a mandatory break: nothing else is ever lost,
+-- cells keep their order and their styles; every successful call consumes at least one cell
+pred Prefix(s *SoftwrapScanner) = len(s.token) <= old(len(s.rest)) && (forall j in 0..len(s.token): s.token[j] == oldat(s.rest, j))
+func (s *SoftwrapScanner) Scan() bool
+  nolocal
+  requires widths: forall j in 0..len(s.rest): s.rest[j].Width >= 0
+  ensures C16_stop:     (old(len(s.rest)) == 0 || s.width == 0) ==> (!result && len(s.rest) == old(len(s.rest)))
+  ensures C16_go:       (old(len(s.rest)) > 0 && s.width > 0) ==> result
+  ensures C16_progress: result ==> len(s.rest) < old(len(s.rest))
+  ensures C16_prefix:   result ==> Prefix(s)
+  ensures C16_suffix:   result ==> (len(s.token) + len(s.rest) <= old(len(s.rest))
+                                    && (forall j in 0..len(s.rest): s.rest[j] == oldat(s.rest, old(len(s.rest)) - len(s.rest) + j)))
+  ensures C16_dropped:  result ==> (forall j in len(s.token)..old(len(s.rest)) - len(s.rest): Droppable(oldat(s.rest, j)))
+  exit 2 assert prog2: len(s.rest) < old(len(s.rest))
+  exit 3 assert prog3: len(s.rest) < old(len(s.rest))
+  exit 4 assert prog4: len(s.rest) < old(len(s.rest))
+  exit 5 assert prog5: len(s.rest) < old(len(s.rest))
+  cut "trSpace := seg[len(word):]" segold: len(word) <= len(seg) && (forall k in 0..len(seg): seg[k] == oldat(s.rest, len(s.token) + k) && seg[k].Width >= 0)
+  loop 1 decreases len(s.rest)
+  loop 1 preserves old
+  loop 1 invariant line: s.width == old(s.width) && s.width > 0 && w <= s.width && (len(s.token) == 0 ==> w == 0)
+                      && len(s.rest) > 0 && len(s.token) + len(s.rest) == old(len(s.rest)) && Prefix(s)
+                      && backing(s.token) != backing(s.rest) && backing(s.token) >= old(brk())
+                      && backing(s.rest) == old(backing(s.rest)) && offset(s.rest) == old(offset(s.rest)) + len(s.token)
+                      && (forall j in 0..len(s.rest): s.rest[j] == oldat(s.rest, len(s.token) + j))
+  loop 2 preserves old
+  loop 2 invariant trim: -1 <= i && i < len(seg) && len(word) == 0
+                      && (forall k in i + 1..len(seg): isSpaceR(lastRune(seg[k].Grapheme)))
+  loop 3 preserves old
+  loop 3 invariant sum: len(word) == 0 ==> wordLen == 0
+  -- the sums do not wrap: each is at least every width it contains (false for sums kept in a narrower type)
+  loop 3 invariant C16_sum: wordLen >= 0 && (forall k in 0..rangeindex + 1: wordLen >= word[k].Width) && (forall k in 0..len(word): word[k].Width >= 0)
+  loop 4 invariant C16_sum: spaceLen >= 0 && (forall k in 0..rangeindex + 1: spaceLen >= trSpace[k].Width) && (forall k in 0..len(trSpace): trSpace[k].Width >= 0)
+  loop 4 preserves old
+  loop 5 preserves old
+  loop 5 invariant fill: -1 <= rangeindex && rangeindex < len(word) && s.width == old(s.width) && Prefix(s)
+                      && len(word) <= len(seg) && 0 <= old(len(s.rest)) - len(seg) - len(rest)
+                      && backing(word) == old(backing(s.rest)) && offset(word) == old(offset(s.rest)) + old(len(s.rest)) - len(seg) - len(rest)
+                      && len(s.token) + len(s.rest) == old(len(s.rest)) - len(seg) - len(rest) + rangeindex + 1
+                      && len(s.token) >= old(len(s.rest)) - len(seg) - len(rest)
+                      && backing(s.token) != backing(s.rest) && backing(s.token) >= old(brk()) && backing(s.rest) >= old(brk())
+                      && (len(s.rest) > 0 ==> w >= s.width) && (len(s.token) > 0 || (w == 0 && rangeindex == -1))
+                      && (forall k in 0..len(s.rest): s.rest[k] == oldat(s.rest, len(s.token) + k))
+@*/
